@@ -20,7 +20,8 @@ def skipStr (b : Bytes) : Outcome Nat :=
 
 /-- one element / key / value / field value inside the skipper -/
 def skipElem (P : Params) (sk : Nat → Bytes → Outcome Nat) (t : Nat) (b : Bytes) : Outcome Nat :=
-  if P.skipFixedOf t > 0 then .ok (P.skipFixedOf t)      -- NB: no length test here in gopkg
+  if t ≥ 128 then .panic .bounds     -- `typeToSize[t]` with t : int8 negative
+  else if P.skipFixedOf t > 0 then .ok (P.skipFixedOf t)      -- NB: no length test here in gopkg
   else if t = 11 then skipStr b
   else sk t b
 
@@ -68,9 +69,10 @@ def skipStructLoop (P : Params) (sk : Nat → Bytes → Outcome Nat) :
 /-- `skipType(p, e, t, maxdepth)`; the result may exceed `b.length` (gopkg adds fixed sizes
     without a length test in the non-fast paths) — callers must cope, see `fieldLoop`. -/
 def skipType (P : Params) : Nat → Nat → Bytes → Outcome Nat
-  | 0, _, _ => .err .skip
+  | 0, _, _ => .err .depth
   | fuel + 1, t, b =>
-    if P.skipFixedOf t > 0 then
+    if t ≥ 128 then .panic .bounds    -- `typeToSize[t]` with t : int8 negative
+    else if P.skipFixedOf t > 0 then
       if P.skipFixedOf t > b.length then .err .skip else .ok (P.skipFixedOf t)
     else if t = 11 then skipStr b
     else if t = 13 then
@@ -84,6 +86,7 @@ def skipType (P : Params) : Nat → Nat → Bytes → Outcome Nat
           | none => .err .skip
           | some (sz, r2) =>
             if sz ≥ 2147483648 then .err .skip else
+            if kt ≥ 128 ∨ vt ≥ 128 then .panic .bounds else
             let ks := P.skipFixedOf kt
             let vs := P.skipFixedOf vt
             if ks > 0 ∧ vs > 0 then
@@ -97,6 +100,7 @@ def skipType (P : Params) : Nat → Nat → Bytes → Outcome Nat
         | none => .err .skip
         | some (sz, r1) =>
           if sz ≥ 2147483648 then .err .skip else
+          if et ≥ 128 then .panic .bounds else
           let es := P.skipFixedOf et
           if es > 0 then
             if sz * es > r1.length then .err .skip else .ok (5 + sz * es)
@@ -209,8 +213,8 @@ def fieldLoop (P : Params) (S : Schema) (sd : SDesc) (total : Nat)
           | .ok n =>
             let st' := if sd.hasHolder then { st with unk := st.unk ++ tp :: (r.take 2 ++ r1.take n) } else st
             fieldLoop P S sd total dt cnt (r1.drop n) st'
-          | .err _ => .err .skip
-          | .panic p => .panic p
+          | .err e => .err (if e == .depth then .depth else .skip)
+          | .panic p => if P.skipRecovers then .err .skip else .panic p   -- `skipUnknown` recovers
         | some (ix, f) =>
           let slot := st.fs.getD ix default
           let res : Outcome (Val × Bytes) :=
